@@ -11,6 +11,8 @@ from refjose.prim import b64u_dec, b64_int
 
 KINDS = (["oct:8", "oct:128", "oct:256", "oct:1024", "RSA:2048", "RSA:1024"] + ["EC:" + c for c in gen.EC_CURVES]
          + ["OKP:" + c for c in gen.OKP_CURVES])
+#: RSA keys as other implementations make them (odd modulus length, e = 3 / 17 / 2^32+1)
+UNUSUAL_RSA = ["RSA:2047e65537", "RSA:2048e3", "RSA:2049e17", "RSA:2048e4294967297"]
 REPS = ["jwk-private", "jwk-public", "pem-private", "pem-public", "der-private", "der-public", "pem-encrypted", "generated"]
 EXTRAS = [None, {"use": "sig"}, {"use": "enc"}, {"key_ops": ["sign", "verify"]}, {"alg": "X1", "kid": "explicit-kid"},
           {"kid": "k1", "x5t": "abc"}, {"use": "enc", "key_ops": ["deriveKey"], "kid": "é"}, {"kid": ""}, {"kid": "0"}]
@@ -22,6 +24,8 @@ def new_jwk(kind: str, stratum: str | None = None) -> dict:
     kty, arg = kind.split(":")
     if kty == "oct":
         return gen.new_oct(int(arg))
+    if kty == "RSA" and "e" in arg:
+        return gen.new_rsa_unusual(arg)
     if kty == "RSA":
         bits = int(arg)
         return gen.new_rsa(bits, pool=2 if bits >= 2048 else 1)
